@@ -22,9 +22,17 @@ func VerifParseBodyRoundTrip() {
 	rt.Assume(rt.InRe(d, "digits+") && rt.FitsU64(d))
 	rt.AssumeNoCRLF(d)
 	n := rt.ToInt(d)
-	k := rt.Choose(rt.Param("k", 2) + 1)
+	// proof of kmin..k hashes (the property's range is 0..64; a run may look at its far end only)
+	kmin := rt.Param("kmin", 0)
+	k := kmin + rt.Choose(rt.Param("k", 2)-kmin+1)
 	var hs [][]byte
 	for i := 0; i < k; i++ {
+		if i > 0 && rt.Param("samehash", 0) == 1 {
+			// long-proof run: one arbitrary hash repeated (the line count is what is explored;
+			// 64 independent hashes make each query ~100x more expensive)
+			hs = append(hs, hs[0])
+			continue
+		}
 		h := rt.Bytes("h")
 		rt.Assume(string(h) != "" && rt.LenLE(string(h), 64)) // hashes of 1..64 bytes
 		hs = append(hs, h)
